@@ -98,27 +98,31 @@ TIE_FUNCS = {
                              "HeapBuffer.with_capacity_body", "HeapBuffer.with_additional_body", "HeapBuffer.allocation_body",
                              "HeapBuffer.capacity_body", "HeapBuffer.is_unique_body", "HeapBuffer.dealloc_body",
                              "HeapBuffer.realloc_body"],
+    "LSProofs.Gen.Bytes": ["InlineBuffer.new_body", "InlineBuffer.empty_body", "InlineBuffer.set_len_body", "StaticBuffer.new_body",
+                           "StaticBuffer.len_body", "StaticBuffer.set_len_body", "Repr.last_byte_body", "Repr.len_body",
+                           "Repr.is_empty_body", "Repr.as_bytes_body", "Repr.as_str_body", "Repr.as_slice_mut_body",
+                           "Repr.as_str_mut_body", "Repr.from_char", "Repr.from_bool"],
     "LSProofs.Props.C01G": [],
     "LSProofs.Gen.Good": ["Repr.push_str", "Repr.insert_str", "Repr.pop", "Repr.remove", "Repr.reserve", "Repr.ensure_modifiable",
                           "Repr.shrink_to", "Repr.set_len", "Repr.truncate_unchecked", "Repr.replace_inner", "Repr.from_str",
                           "Repr.make_shallow_clone"],
 }
 TIES = {
-    "C01": T("Ctor", "Readers", "Release", "SetLen", "Reserve", "Ensure", "Shrink", "Clone", "Clear", "PushStr", "InsertStr", "PopRemove", "Good", "Wrappers", "Panicking", "Extend", "Collect", "Decode", "CloneDrop", "StepG", "HeapBuf") + ["LSProofs.Props.C01G"],
+    "C01": T("Ctor", "Readers", "Release", "SetLen", "Reserve", "Ensure", "Shrink", "Clone", "Clear", "PushStr", "InsertStr", "PopRemove", "Good", "Wrappers", "Panicking", "Extend", "Collect", "Decode", "CloneDrop", "StepG", "HeapBuf", "Bytes") + ["LSProofs.Props.C01G"],
     "C02": T("Reserve", "Ensure", "Shrink", "Clear", "SetLen", "StepG", "HeapBuf"),
     "C03": T("Release", "Clone", "CloneDrop", "Collect", "Reserve", "Ensure", "Shrink", "StepG", "HeapBuf"),
     "C05": T("Reserve", "Ensure", "Shrink", "SetLen", "Ctor", "PushStr", "InsertStr", "PopRemove", "Wrappers", "Panicking", "Extend", "Collect", "HeapBuf"),
     "C06": T("Reserve", "Shrink", "Ctor", "Extend", "Collect", "HeapBuf"),
     "C07": T("SetLen", "InsertStr", "PopRemove"),
     "C08": T("Clone", "CloneDrop"),
-    "C09": T("Ctor", "Reserve", "PushStr", "InsertStr", "PopRemove", "Wrappers"),
-    "C10": T("Ctor", "Reserve", "Ensure", "Clear", "SetLen"),
+    "C09": T("Ctor", "Reserve", "PushStr", "InsertStr", "PopRemove", "Wrappers", "Bytes"),
+    "C10": T("Ctor", "Reserve", "Ensure", "Clear", "SetLen", "Bytes"),
     "C11": T("Readers", "Ctor", "Reserve", "PushStr", "InsertStr", "Wrappers", "HeapBuf"),
     "C12": T("Reserve", "HeapBuf"),
     "C13": T("Shrink", "HeapBuf"),
     "C16": T("Decode"),
     "C18": T("Extend", "Collect"),
-    "C20": T("Kind"),
+    "C20": T("Kind", "Bytes"),
 }
 
 PROPS = {
